@@ -1280,7 +1280,13 @@ class DiameterMessage:
                                        "DiameterMessage subclass object to be "\
                                        "converted into DiameterMessage object")
         
-        return cls(header=msg.header,
+        #: The new message gets a header of its own, otherwise both messages
+        #: would share it (and its Message Length, which already counts the 
+        #: AVPs, would be counted twice).
+        header = deepcopy(msg.header)
+        header.length = convert_to_3_bytes(DIAMETER_HEADER_LENGTH)
+
+        return cls(header=header,
                    avps=msg.avps)
 
 
